@@ -35,13 +35,13 @@ Wrap ==
              /\ ts' = Norm(WrapByPattern(ts, g, p))
              /\ op' = [op |-> "wrap_pattern", tag |-> g, p |-> p]
 Mark ==
-    \/ \E p \in Patterns : \E nth \in 0..2 : \E b \in BOOLEAN :
+    \/ \E p \in Patterns : \E nth \in -1..2 : \E b \in BOOLEAN :
           /\ ts' = Norm(MarkAtOccurrence(ts, p, nth, b))
           /\ op' = [op |-> "mark_occurrence", p |-> p, nth |-> nth, before |-> b]
-    \/ \E pos \in 0..(TotalChars + 1) :
+    \/ \E pos \in -1..(TotalChars + 1) :
           /\ ts' = Norm(MarkAtPosition(ts, pos))
           /\ op' = [op |-> "mark_position", pos |-> pos]
-    \/ \E p \in Patterns : \E nth \in 0..1 :
+    \/ \E p \in Patterns : \E nth \in -1..1 :
           /\ ts' = Norm(MarkContent(ts, p, nth))
           /\ op' = [op |-> "mark_content", p |-> p, nth |-> nth]
     \/ \E a \in 0..(TotalChars + 1) : \E b \in 0..(TotalChars + 1) :
@@ -98,10 +98,10 @@ WrapsDesignated ==
 (* C09: an address that matches nothing leaves the paragraph untouched *)
 NoMatchNoChange ==
     [][ /\ (op'.op = "wrap_pattern" /\ \A i \in Slots(ts) : Occ(ts[i].s, op'.p, 1) = <<>>) => ts' = ts
-        /\ (op'.op = "mark_occurrence" /\ OccSlot(ts, op'.p, 1, op'.nth)[1] = 0) => ts' = ts
+        /\ (op'.op = "mark_occurrence" /\ OccAt(ts, op'.p, op'.nth)[1] = 0) => ts' = ts
         /\ (op'.op = "wrap_offset" /\ op'.off >= TotalChars) => ts' = ts
         /\ (op'.op = "mark_position" /\ op'.pos > TotalChars) => ts' = ts
-        /\ (op'.op = "mark_content" /\ OccSlot(ts, op'.p, 1, op'.nth)[1] = 0) => ts' = ts
+        /\ (op'.op = "mark_content" /\ OccAt(ts, op'.p, op'.nth)[1] = 0) => ts' = ts
         /\ (op'.op = "mark_range" /\ op'.b > TotalChars) => ts' = ts      \* no half of a range is ever inserted
       ]_vars
 
